@@ -25,6 +25,20 @@ def run(tier):
                     {"kind": "border-vector", "vec": m["vec"], "grid": m["grid"], "z": m["z"], "ring": m["ring"]}, name="border")
     if summary["bad"] > 10:
         log("  (%d replays differ in total)" % summary["bad"])
+    # "by any amount" below the quarter-pixel lattice, on the built-in grids that do not divide evenly (BorderFineTrace.tla)
+    p = vlib.run([drv, "border-fine"], timeout=1800)
+    if p.returncode != 0:
+        raise Broken("border-fine failed: " + p.stderr[-2000:])
+    fine = [x for x in p.stdout.splitlines() if x.startswith("{")]
+    if len(fine) < 500:
+        raise Broken("border-fine produced only %d records" % len(fine))
+
+    def on_fail(inv, idx, line):
+        rec = json.loads(line)
+        v.violation("%s tile matrix %d: a vertex %d units of 1e-10 (pixel = %d units) outside the %s border, ignore=%s: SnapPolygon -> %s (%s)"
+                    % (rec["set"], rec["z"], rec["d"], rec["pix"], rec["side"], rec["ig"], rec["outcome"], inv),
+                    {"kind": "border-fine-record", "invariant": inv, "record": rec}, name="fine")
+    fstates, _ = vlib.validate_records("BorderFineTrace", "BorderFineTrace.cfg", "borderfine_trace.ndjson", fine, on_fail=on_fail, workers=4)
     rc = v.finish()
     outside = sum(1 for x in r.vecs if not x["inside"])
     vlib.write_evidence(PROP, tier, "model_checking", {
@@ -32,11 +46,12 @@ def run(tier):
         "samples": [r.vecs[0], r.vecs[len(r.vecs) // 2]],
         "vectors": len(r.vecs), "vectors_outside": outside, "replays": summary["n"], "replay_mismatches": summary["bad"],
         "skipped_inexact_float": summary["skipped_inexact"], "grids": summary["grids"], "exhaustive": True,
+        "fine_records_on_built_in_grids": len(fine), "fine_states": fstates,
         "rule": "every lattice point (quarter pixel) within 2 pixels of any border of an 8x8-pixel model grid, inside and outside, "
                 "x position of the vertex in the ring x {plain triangle, shell followed by an in-grid hole, hole after an in-grid shell} x ignore flag; distances are measured from the nearest border and replayed on each grid; "
                 "a replay is skipped only when no float64 converts to the intended 1e-10 integer",
     }, time.time() - t0, violations=len(v.violations),
-        assumptions=["'any amount' is quantified at multiples of a quarter of the deepest pixel (>= 2^-10 units)",
+        assumptions=["'any amount' is quantified at multiples of a quarter of the deepest pixel (>= 2^-10 units), and on 29 (set, tile matrix) pairs of the built-in grids at 2e-9 units .. 1/16 pixel outside each border (border-fine)",
                      "on grids whose extent does not divide evenly only the only-if direction is asserted (F10 belongs to C06)"])
     return rc
 
@@ -44,6 +59,16 @@ def run(tier):
 def replay(path):
     o = json.load(open(path))
     drv = vlib.build_harness()
+    if o.get("kind") == "border-fine-record":
+        p = vlib.run([drv, "border-fine"], timeout=1800)
+        want = o["record"]
+        for x in p.stdout.splitlines():
+            if x.startswith("{"):
+                r = json.loads(x)
+                if all(r[k] == want[k] for k in ("set", "z", "side", "ig")) and abs(r["d"] - want["d"]) <= 1:
+                    print(x)
+                    return 0 if r["outcome"] == ("empty" if r["ig"] else "panic-outside-grid") else 1
+        return 2
     summary, mism = vlib.replay_vectors(drv, ["border-replay", "-N", "8", "-S", "4", "-tier", "thorough"], [o["vec"]])
     for m in mism:
         print(json.dumps(m))
